@@ -362,6 +362,7 @@ func (m *modAnalysis) build(pkgs []*pkgInfo) {
 					i, ok := params[obj]
 					return i, ok
 				}
+				localAliases := p.aliasesIn(fd.Body)
 				ast.Inspect(fd.Body, func(x ast.Node) bool {
 					switch v := x.(type) {
 					case *ast.AssignStmt:
@@ -382,6 +383,8 @@ func (m *modAnalysis) build(pkgs []*pkgInfo) {
 					case *ast.ReturnStmt:
 						for _, r := range v.Results {
 							if g := p.globalAddr(r); g != nil {
+								m.retGlob[fn] = g
+							} else if g := p.aliasAddr(r, localAliases); g != nil {
 								m.retGlob[fn] = g
 							}
 						}
@@ -463,6 +466,20 @@ func (p *pkgInfo) globalAddr(e ast.Expr) *types.Var {
 			if _, isPtr := v.Type().Underlying().(*types.Pointer); isPtr {
 				return v
 			}
+		}
+	}
+	return nil
+}
+
+// aliasAddr: e is &x... or x where x is a local alias of a package-level
+// variable: returns that variable.
+func (p *pkgInfo) aliasAddr(e ast.Expr, al map[types.Object]*types.Var) *types.Var {
+	if u, ok := e.(*ast.UnaryExpr); ok && u.Op == token.AND {
+		e = u.X
+	}
+	if id := rootIdent(e); id != nil {
+		if obj := p.info.Uses[id]; obj != nil {
+			return al[obj]
 		}
 	}
 	return nil
